@@ -34,3 +34,25 @@ Theorem C10_duplicate_name_rejected :
   forall e d, ep_wf e = true -> 0 < d_listen d -> accepts e d = false.
 Proof. exact duplicate_rejected. Qed.
 Print Assumptions C10_duplicate_name_rejected.
+
+(* ---------- the rule language itself (Lang/Reader.v: lexer + grammar + listener checks as a function of the text) ---------- *)
+From GV Require Lang.Syntax Lang.Reader Lang.ReaderFacts.
+
+(* a text that defines the same rule name twice is rejected: the rules of an accepted text have pairwise distinct names *)
+Theorem C10_reader_rejects_duplicate_rule_names : forall reals s rs,
+  Reader.read_text reals s = Reader.ROk rs -> NoDup (map (fun r => Syntax.m_name (Syntax.r_meta r)) rs).
+Proof. exact ReaderFacts.read_text_names_unique. Qed.
+Print Assumptions C10_reader_rejects_duplicate_rule_names.
+
+(* an accepted text defines at least one rule, and no rule without a name *)
+Theorem C10_reader_accepted_text_defines_named_rules : forall reals s rs,
+  Reader.read_text reals s = Reader.ROk rs ->
+  rs <> nil /\ Forall (fun r => Syntax.m_name (Syntax.r_meta r) <> EmptyString) rs.
+Proof. exact ReaderFacts.read_text_nonempty. Qed.
+Print Assumptions C10_reader_accepted_text_defines_named_rules.
+
+(* every salience of an accepted text fits the int64 the rule container stores *)
+Theorem C10_reader_saliences_fit_int64 : forall reals s rs,
+  Reader.read_text reals s = Reader.ROk rs -> Forall (fun r => Reader.in_i64 (Syntax.m_sal (Syntax.r_meta r)) = true) rs.
+Proof. exact ReaderFacts.read_text_saliences_in_range. Qed.
+Print Assumptions C10_reader_saliences_fit_int64.
